@@ -14,6 +14,8 @@ import (
 	"sync"
 	"time"
 
+	"go/types"
+
 	"golang.org/x/tools/go/ssa"
 
 	"govc/vc"
@@ -124,6 +126,7 @@ func run() int {
 		safety bool
 	}
 	var jobs []job
+	var lemmas []*vc.Contract
 	seen := map[string]bool{}
 	var onlyRe *regexp.Regexp
 	if *only != "" {
@@ -146,6 +149,12 @@ func run() int {
 	sort.Strings(keys)
 	for _, k := range keys {
 		ct := w.Contracts[k]
+		if ct.Lemma {
+			if ct.Props[*prop] && (onlyRe == nil || onlyRe.MatchString(ct.Func)) {
+				lemmas = append(lemmas, ct)
+			}
+			continue
+		}
 		if ct.Props[*prop] {
 			addFn(w.FnByKey[k], ct, false)
 		}
@@ -199,6 +208,15 @@ func run() int {
 				}
 			}
 		}
+	}
+	for _, l := range lemmas {
+		var tp *types.Package
+		for _, p := range w.Prog.AllPackages() {
+			if p.Pkg.Path() == l.PkgPath {
+				tp = p.Pkg
+			}
+		}
+		results = append(results, w.VerifyLemma(l, tp))
 	}
 	tGen := time.Since(tGen0).Seconds()
 
